@@ -142,6 +142,9 @@ func (m *Model) do(c *RawClient, method uint16, build func(b *wire.Builder)) (*w
 	var lastTID [12]byte
 	for attempt := 0; attempt < 3; attempt++ {
 		tid := m.W.NewTID()
+		if m.NextTID != nil && c.Nonce != "" {
+			tid, m.NextTID = *m.NextTID, nil // (a transaction id some other 5-tuple has used)
+		}
 		lastTID = tid
 		b := wire.NewBuilder(method, wire.ClassRequest, tid)
 		if build != nil {
